@@ -33,21 +33,44 @@ func TestLockConformance(t *testing.T) {
 		root = fmt.Sprintf("/dev/shm/verif-lock-%d", os.Getpid())
 	}
 	defer os.RemoveAll(root)
-	type result struct {
-		Sequences  int      `json:"sequences"`
-		Operations int      `json:"operations"`
-		Acquired   int      `json:"acquired"`
-		TimedOut   int      `json:"timed_out"`
-		Handoffs   int      `json:"handoffs"`
-		Mismatches []string `json:"mismatches"`
-	}
-	res := &result{}
+	res := &lockResult{}
 	for seq := 0; seq < n; seq++ {
 		dir := filepath.Join(root, fmt.Sprintf("s%d", seq))
 		if err := os.MkdirAll(dir, 0o755); err != nil {
 			t.Fatal(err)
 		}
 		tp := tape.New(seed, "lock-conformance", uint64(seq))
+		func() {
+			// a real locker that misbehaves can leave goroutines blocked when the bubble ends
+			defer func() {
+				if r := recover(); r != nil {
+					res.Mismatches = append(res.Mismatches, fmt.Sprintf("seq %d: the sequence did not end cleanly: %v", seq, r))
+				}
+			}()
+			runLockSequence(t, dir, tp, seq, res)
+		}()
+	}
+	data, _ := json.Marshal(res)
+	if out := os.Getenv("VERIF_OUT"); out != "" {
+		if err := os.WriteFile(out, data, 0o644); err != nil {
+			t.Fatal(err)
+		}
+	} else {
+		fmt.Println(string(data))
+	}
+}
+
+type lockResult struct {
+	Sequences  int      `json:"sequences"`
+	Operations int      `json:"operations"`
+	Acquired   int      `json:"acquired"`
+	TimedOut   int      `json:"timed_out"`
+	Handoffs   int      `json:"handoffs"`
+	Mismatches []string `json:"mismatches"`
+}
+
+func runLockSequence(t *testing.T, dir string, tp *tape.Tape, seq int, res *lockResult) {
+	{
 		synctest.Test(t, func(t *testing.T) {
 			locker, err := filelock.NewLocker(dir, filelock.LockerWithLockTimeout(700*time.Millisecond), filelock.LockerWithLockRetryDelay(100*time.Millisecond))
 			if err != nil {
@@ -116,6 +139,16 @@ func TestLockConformance(t *testing.T) {
 					want = true
 					res.Handoffs++
 				}
+				// lock files are never deleted, so most of them are old: their age must not matter
+				if tp.Draw("age", 3) == 2 {
+					old := time.Date(1990, 1, 1, 0, 0, 0, 0, time.UTC)
+					_ = filepath.Walk(dir, func(p string, info os.FileInfo, err error) error {
+						if err == nil && info.Mode().IsRegular() {
+							_ = os.Chtimes(p, old, old)
+						}
+						return nil
+					})
+				}
 				var u filelock.Unlocker
 				var err error
 				if exclusive {
@@ -139,11 +172,5 @@ func TestLockConformance(t *testing.T) {
 			}
 		})
 		res.Sequences++
-	}
-	data, _ := json.Marshal(res)
-	if out := os.Getenv("VERIF_OUT"); out != "" {
-		_ = os.WriteFile(out, data, 0o644)
-	} else {
-		fmt.Println(string(data))
 	}
 }
